@@ -41,6 +41,13 @@ def one(sid):
                 meta['demo_still_discriminates'] = False
                 json.dump(meta, open(mp, 'w'), indent=1)
                 return sid, prop, 'NEUTRALISED (demo passes with the change applied to the current /repo)', 0
+            marker = meta.get('loud_rejection_marker')
+            if marker and r1.returncode != 0 and marker in (r1.stdout + r1.stderr):
+                # on the current /repo the seeded change no longer yields a SILENT wrong result: the operation is refused with a clear
+                # exception, which is the alternative the property itself allows ("honoured or rejected, never silently ignored")
+                meta['neutralised_on_current_repo'] = 'refused loudly'
+                json.dump(meta, open(mp, 'w'), indent=1)
+                return sid, prop, 'NEUTRALISED (the change now makes rockit refuse loudly: %s...)' % marker[:50], 0
             meta.pop('neutralised_on_current_repo', None)
         env = dict(os.environ, ROCKIT_SRC=d, RV_REPLAY_DIR=os.path.join(d, 'replay'), RV_EVIDENCE_DIR=os.path.join(d, 'evidence'), RV_INSTANCE_TIMEOUT='45')
         verdict, nv = 'MISSED', 0
